@@ -7,6 +7,7 @@ use lrlex::{DefaultLexerTypes, LRNonStreamingLexerDef, LexerDef};
 use lrpar::{LexError, LexParseError, Lexeme, Lexer, NonStreamingLexer};
 use serde::{Deserialize, Serialize};
 use serde_json::Value;
+use unicode_width::UnicodeWidthStr;
 
 pub struct C19;
 
@@ -133,12 +134,23 @@ impl Prop for C19 {
     }
     fn decode(&self, choices: &[u32], tier: Tier) -> Value {
         let mut ch = Choices::new(choices);
-        let text = gen_text(&mut ch, tier.pick(5, 9), 6);
+        let mut text = gen_text(&mut ch, tier.pick(5, 9), 6);
+        // 1/8: many short lines first, so that line numbers gain a digit (9 -> 10, 99 -> 100)
+        // inside the text
+        if ch.chance(1, 24) {
+            let n = if ch.chance(1, 6) { ch.range(94, 100) } else { ch.range(4, 11) };
+            let mut pre = String::new();
+            for _ in 0..n {
+                pre.push_str(*ch.choose(&["", "", "", "a", "", "é"]));
+                pre.push_str(*ch.choose(&["\n", "\n", "\n", "\r\n"]));
+            }
+            text = format!("{pre}{text}");
+        }
         let chunks = chunk_text(&mut ch, &text);
         serde_json::to_value(Case { chunks }).unwrap()
     }
     fn rule(&self) -> String {
-        "texts from line fragments over {a,é,漢,♠,space,tab} joined by LF/CRLF/lone CR, random chunkings on char boundaries (empty chunks included); every char-boundary offset and every span (s<=e) of the text is queried (NewlineCache, the lexer's line_col/span_lines_str, LexParseError::pp for lexing and for parse errors (recovery off and on), and the builders' SpannedDiagnosticFormatter::file_location_msg / underline_span_with_text) and compared with a naive scan (1+count of LF; chars since line start; rfind/find of LF; numbered source rows). One evaluation = one (text,chunking) with all its offsets and spans. Non-trivial: >=2 lines and (multi-byte char or CRLF) and a query touching a line boundary/end of text (always the case since all boundaries are enumerated); distinct by (text, chunking).".into()
+        "texts from line fragments over {a,é,漢,♠,space,tab} joined by LF/CRLF/lone CR, random chunkings on char boundaries (empty chunks included); every char-boundary offset and every span (s<=e) of the text is queried (NewlineCache, the lexer's line_col/span_lines_str, LexParseError::pp for lexing and for parse errors (recovery off and on), and the builders' SpannedDiagnosticFormatter::file_location_msg / underline_span_with_text) and compared with a naive scan (1+count of LF; chars since line start; rfind/find of LF; numbered source rows, each followed by an underline row that starts below the first covered character of that line and is as wide as the covered part). 1/24 of the texts start with 4-11 or 94-100 short lines so that line numbers gain a digit inside the text (for texts with more than 70 boundaries only the spans between a subset of at most 44 boundaries - those of lines 9-10 and 99-100, every k-th, the end - are queried). One evaluation = one (text,chunking) with all its offsets and spans. Non-trivial: >=2 lines and (multi-byte char or CRLF) and a query touching a line boundary/end of text (always the case since all boundaries are enumerated); distinct by (text, chunking).".into()
     }
     fn assumptions(&self) -> Vec<String> {
         vec![
@@ -147,7 +159,7 @@ impl Prop for C19 {
         ]
     }
     fn required_classes(&self, _tier: Tier) -> Vec<&'static str> {
-        vec!["crlf", "multibyte", "multi-chunk", "empty-text", "trailing-newline", "span-ends-at-line-start", "pp-lex-error", "pp-parse-error"]
+        vec!["crlf", "multibyte", "multi-chunk", "empty-text", "trailing-newline", "span-ends-at-line-start", "pp-lex-error", "pp-parse-error", "lines>=10"]
     }
 
     fn evaluate(&self, case: &Value) -> Outcome {
@@ -279,8 +291,28 @@ impl Prop for C19 {
         let lexer = lexerdef.lexer(&text);
         let gpath = std::path::Path::new("g.y");
         let fmt = lrpar::diagnostics::SpannedDiagnosticFormatter::new(&text, gpath);
-        for (i, &s) in bs.iter().enumerate() {
-            for &e in &bs[i..] {
+        // all spans of short texts; for long ones the spans between a subset of the boundaries:
+        // those around the lines whose number gains a digit, and every k-th boundary
+        let sbs: Vec<usize> = if bs.len() <= 70 {
+            bs.clone()
+        } else {
+            o.class("long-text:spans-sampled");
+            let k = bs.len() / 10 + 1;
+            bs.iter()
+                .enumerate()
+                .filter(|(i, b)| {
+                    let l = ref_line_num(&text, **b);
+                    i % k == 0 || (9..=10).contains(&l) || (99..=100).contains(&l) || **b == text.len()
+                })
+                .map(|(_, b)| *b)
+                .take(44)
+                .collect()
+        };
+        if nlines >= 10 {
+            o.class("lines>=10");
+        }
+        for (i, &s) in sbs.iter().enumerate() {
+            for &e in &sbs[i..] {
                 let (exp_st, exp_ens) = ref_span_lines(&text, s, e);
                 if e > s && text.as_bytes()[e - 1] == b'\n' {
                     o.class("span-ends-at-line-start");
@@ -336,9 +368,33 @@ impl Prop for C19 {
                             }
                             let rows: Vec<&str> = under.split('\n').collect();
                             // a source line may contain a lone CR but never LF
-                            rows.len() == 2 * src_lines.len()
+                            if !(rows.len() == 2 * src_lines.len()
                                 && src_lines.iter().enumerate().all(|(k, sl)| rows[2 * k] == format!("{}| {}", l + k, sl))
-                                && rows.last().map(|r| r.ends_with(" note")).unwrap_or(false)
+                                && rows.last().map(|r| r.ends_with(" note")).unwrap_or(false))
+                            {
+                                return false;
+                            }
+                            // the underline row of every line marks the part of that line the span
+                            // covers: it starts below the first covered character (display columns,
+                            // after the "N| " gutter of *that* row) and is as wide as the covered
+                            // text (one mark for an empty part)
+                            let mut ls = exp_st;
+                            src_lines.iter().enumerate().all(|(k, sl)| {
+                                let le = ls + sl.len();
+                                let us = s.clamp(ls, le);
+                                let ue = e.clamp(us, le);
+                                let gutter = format!("{}| ", l + k).len();
+                                let indent = gutter + UnicodeWidthStr::width(&text[ls..us]);
+                                let marks = UnicodeWidthStr::width(&text[us..ue]).max(1);
+                                let mut exp_row = format!("{}{}", " ".repeat(indent), "^".repeat(marks));
+                                if k + 1 == src_lines.len() {
+                                    exp_row.push_str(" note");
+                                }
+                                // next line: after this line's terminator (LF or CR LF; a lone CR is
+                                // part of the line)
+                                ls = le + if text[le..].starts_with("\r\n") { 2 } else { 1 };
+                                rows[2 * k + 1] == exp_row
+                            })
                         });
                         if !ok {
                             o.fail(
